@@ -194,7 +194,8 @@ impl<K: KeyT> World<K> {
             None => unsafe { std::mem::transmute::<&str, &'static str>(to_str(x)) },
         };
         let before_mem = self.slot(si).obj.mem();
-        let before_max = self.slot(si).obj.max_mem();
+        // the limit in force: the one the harness itself set last, else what the object reports
+        let before_max = self.slot(si).shadow.limit.or(self.slot(si).obj.max_mem());
         let before_len = self.slot(si).obj.len();
         let before_blocks = self.slot(si).obj.blocks();
         let present = self.slot(si).shadow.index.get(x).copied();
